@@ -252,12 +252,18 @@ def check(run):
     rejected_in_lower_dimensions(run, funcs)
     accessors(run, funcs)
     combinatorics(run, funcs, 6 if run.tier == 'quick' else 40)
+    from . import staterules as SR
+    SR.cell_transitions(run, funcs, 'C15')
+    SR.cell_clone(run, funcs, 'C15')            # face data is still present after clone (unchecked access relies on it)
     run.assume('planarity, convexity and equality of polygon area with the face integral are float geometry: outside')
     return run.finish(LEVEL, EXPLANATION, trusted=['rustc -Zunpretty=mir', 'z3 5.1.0', 'std Vec/slice/iterator models of mirsym'])
 
 
 def replay(path):
     d = json.load(open(path))
+    from . import staterules as SR
+    if d['kind'] in SR.NATIVE:
+        return SR.replay(d)
     f = {'with_faces_lowdim': check_lowdim_native, 'accessor_own_image': check_accessor_native}[d['kind']]
     bad = f(d)
     print(bad)
